@@ -560,7 +560,7 @@ func rparam(r *lib.Rng, maxEntries, maxStr int) ttheader.EncodeParam {
 func genEnc(o *lib.Opts, r *lib.Rng) {
 	n := o.N
 	if n == 0 {
-		n = 1500
+		n = 1000
 		if o.Tier == "thorough" {
 			n = 60000
 		}
@@ -601,7 +601,7 @@ func genEnc(o *lib.Opts, r *lib.Rng) {
 	}
 	// 4. info sizes 65520..65544 through each kind of section (65536 must round-trip, beyond must fail)
 	for target := 65520; target <= 65544; target++ {
-		if o.Tier != "thorough" && target < 65530 && target%4 != 0 {
+		if o.Tier != "thorough" && (target < 65530 || target > 65540) {
 			continue
 		}
 		// one string entry: 2 + 3 + (2+1) + (2+L)
@@ -613,7 +613,10 @@ func genEnc(o *lib.Opts, r *lib.Rng) {
 	}
 	// many entries reaching the limit exactly: 2 + 3 + sum(2+2+len) = target
 	for _, target := range []int{65533, 65536, 65537} {
-		cnt := 1000
+		cnt := 150
+		if o.Tier == "thorough" {
+			cnt = 1000
+		}
 		m := map[uint16]string{}
 		left := target - 5 - 4*cnt
 		for i := 0; i < cnt; i++ {
@@ -625,6 +628,9 @@ func genEnc(o *lib.Opts, r *lib.Rng) {
 	}
 	// 5. 64 KiB-scale strings and counts: the uint16 truncations must end in the size error
 	for _, L := range []int{65535, 65536, 65537, 70000, 131072 + 5} {
+		if o.Tier != "thorough" && (L == 65537 || L > 70000) {
+			continue
+		}
 		emitEnc("huge-val", "b", ttheader.EncodeParam{StrInfo: map[string]string{"k": string(make([]byte, L))}}, 0)
 		emitEnc("huge-key", "d", ttheader.EncodeParam{StrInfo: map[string]string{string(r.Bytes(L)): "v"}}, 0)
 		emitEnc("huge-int", "b", ttheader.EncodeParam{IntInfo: map[uint16]string{1: string(make([]byte, L))}}, 0)
